@@ -43,7 +43,7 @@ SCHED = [("R01", sched.r01_next_pull), ("R02", sched.r02_sched_agree), ("R03", s
          ("R05", sched.r05_select)]
 CONNECT = [("R10", life.r10_stall), ("R10b", life.r10b_mustconnect), ("R11", connect.r11_r12_connect), ("R11r", connect.r11r_rules),
            ("R13", connect.r13_nodata), ("R14", connect.r14_doublepush), ("R06s", life.r06s_start_time)]
-LIFE = [("R06", life.r06_life), ("R07", life.r07_status), ("R08", life.r08_advance)]
+LIFE = [("R06", life.r06_life), ("R07", life.r07_status), ("R08", life.r08_advance), ("R08r", life.r08r_reader_finishes)]
 LINKDATA = [("R39", buffer.r39_static), ("R17", buffer.r17_nearest), ("R17p", link.r17_pushpath), ("R18", link.r18_pullpath), ("R18s", link.r18s_shape), ("R20", link.r20_target),
             ("R21", buffer.r21_evict), ("R04", buffer.r04_cmp)]
 SPILL = [("R22", spill.r22_pack), ("R23", spill2.r23s_finalize), ("R24", spill2.r24s_format), ("R25", spill2.r25s_pack)]
@@ -71,7 +71,7 @@ def _u(*groups):
 
 
 RULES = {
-    "C01": _u(SCHED, LINKDATA, TIMEAD, ("R40c", link.r40c_shared_conduit), ("R06s", life.r06s_start_time), ("R14", connect.r14_doublepush), ("R16", data.r16_getinfo), ("R42", misc.r42_forwarders), ("R25", spill2.r25s_pack)),
+    "C01": _u(SCHED, LINKDATA, TIMEAD, ("R40c", link.r40c_shared_conduit), ("R06s", life.r06s_start_time), ("R14", connect.r14_doublepush), ("R16", data.r16_getinfo), ("R42", misc.r42_forwarders), ("R25", spill2.r25s_pack), ("R11", connect.r11_r12_connect)),
     "C02": _u(SCHED, ("R30", link.r30_delay), ("R16", data.r16_getinfo)),
     "C03": _u(LIFE, SCHED, CONNECT, ("R42", misc.r42_forwarders)),
     "C04": _u(SCHED, CONNECT, ("R30", link.r30_delay), ("R16", data.r16_getinfo)),
@@ -97,11 +97,11 @@ RULES = {
               ("R32", grid.r32_gridsib), ("R18", link.r18_pullpath), ("R37e", data.r37e_masks_equal_layout), ("R39", buffer.r39_static),
               ("R20", link.r20_target), ("R15c", data.r15c_copy_with), ("R15", data.r15_fields)),
     "C16": _u(REGRID, ("R32c", grid.r32c_cellcenters), ("R32", grid.r32_gridsib), ("R32b", grid.r32b_indexspace), ("R32d", grid.r32d_cellcorners),
-              ("R41", misc.r41_masktruth), ("R37", data.r37_masktable), ("R16", data.r16_getinfo)),
+              ("R41", misc.r41_masktruth), ("R37", data.r37_masktable), ("R16", data.r16_getinfo), ("R31", grid.r31_memo)),
     "C17": _u(UNITS, ("R18", link.r18_pullpath), ("R15", data.r15_fields), ("R16u", data.r16u_delivered_units), ("R24", spill2.r24s_format),
-              ("R40", link.r40_cbtime), ("R39", buffer.r39_static), ("R17p", link.r17_pushpath), ("R28", integ.r28_dim), ("R42", misc.r42_forwarders), ("R16", data.r16_getinfo)),
+              ("R40", link.r40_cbtime), ("R39", buffer.r39_static), ("R17p", link.r17_pushpath), ("R28", integ.r28_dim), ("R42", misc.r42_forwarders), ("R16", data.r16_getinfo), ("R11r", connect.r11r_rules)),
     "C18": _u(("R37", data.r37_masktable), ("R37e", data.r37e_masks_equal_layout), ("R37p", data.r37p_prepare_mask), ("R33c", data.r33c_compress), UNITS,
-              ("R15", data.r15_fields), ("R41", misc.r41_masktruth), ("R33", grid.r33_mirror), ("R34", grid.r34_transdir)),
+              ("R15", data.r15_fields), ("R15c", data.r15c_copy_with), ("R41", misc.r41_masktruth), ("R33", grid.r33_mirror), ("R34", grid.r34_transdir)),
     "C19": _u(VALID, ("R06", life.r06_life), ("R20", link.r20_target)),
     "C20": _u(STATIC, ("R38s", valid._slot_constructors), ("R14", connect.r14_doublepush), ("R03", sched.r03_r09_step), ("R09", sched.r09_structure), ("R02", sched.r02_sched_agree), ("R17p", link.r17_pushpath),
               ("R18", link.r18_pullpath)),
